@@ -48,7 +48,7 @@ PROBES = [None, True, 0, 1, -1, 1.5, "", "a", "ab", b"", [], [1], [1, "a"], {}, 
 
 def _ops(max_len):
     ref = st.integers(0, 7)
-    spec = specs.spec_strategy(depth=1, sat=True, patterns=False)
+    spec = specs.spec_strategy(depth=1, sat=True, patterns=True)
     # a small scalar domain on purpose: equal numbers of different types (0 / 0.0 / False ...) must meet
     # each other inside one value and across the operations of one history
     plain = st.recursive(st.sampled_from([None, True, False, 0, 1, 2, 0.0, 1.0, 2.0, 1.5, "a", ""]),
@@ -98,6 +98,8 @@ def _ops(max_len):
         st.tuples(st.just("or"), ref, ref).map(list),
         st.tuples(st.just("add-empty"), ref, st.integers(0, 3)).map(list),
         st.tuples(st.just("invert"), ref, st.integers(0, 5)).map(list),
+        st.tuples(st.just("invert"), ref, st.integers(0, 5)).map(list),
+        st.just(["own-generators"]),
         st.tuples(st.just("represent"), ref).map(list),
         st.tuples(st.just("make-required"), ref).map(list),
         st.tuples(st.just("getitem"), ref, ref).map(list),
@@ -430,6 +432,15 @@ def check(case, ctx):
                 if s is not None and hasattr(s, "__iter__"):
                     def thunk(s=s):
                         return [canon.canon(x) if isinstance(x, Schema) else canon.atom(x) for x in s]
+            elif name == "own-generators":
+                # visitors of one's own, constructed with non-default options and used once
+                from d42.generation import Generator, RegexGenerator
+                from d42.validation import Formatter, Validator
+                rnd = Random()
+                Generator(rnd, RegexGenerator(rnd, alphabet={"digits": "01", "letters": "xy", "word": "z"},
+                                              max_repeat=2))
+                Validator()
+                Formatter("root")
             elif name == "repeat":
                 if w.log:
                     old_thunk, old_fp, old_step, dep = w.log[op[1] % len(w.log)]
